@@ -51,9 +51,9 @@ int __real_fputs(const char *, FILE *);
 void __real_exit(int) __attribute__((noreturn));
 
 /* ---------- scheduler state ---------- */
-enum { OP_NONE, OP_START, OP_LOCK, OP_UNLOCK, OP_WAIT, OP_RELOCK, OP_SIGNAL, OP_SLEEP, OP_POLL, OP_READ,
+enum { OP_NONE, OP_NOP, OP_START, OP_LOCK, OP_UNLOCK, OP_WAIT, OP_RELOCK, OP_SIGNAL, OP_SLEEP, OP_POLL, OP_READ,
        OP_CONNECT, OP_SIGWAIT, OP_FPUTS, OP_CREATE, OP_KILL, OP_DESTROY, OP_RSIGNAL, OP_EXIT, OP_DONE };
-static const char *opname[] = { "none", "start", "lock", "unlock", "wait", "relock", "signal", "sleep", "poll", "read",
+static const char *opname[] = { "none", "nop", "start", "lock", "unlock", "wait", "relock", "signal", "sleep", "poll", "read",
        "connect", "sigwait", "fputs", "create", "kill", "destroy", "rsignal", "exit", "done" };
 
 struct thr {
@@ -390,7 +390,13 @@ int __wrap_pthread_create(pthread_t *th, const pthread_attr_t *attr, void *(*fn)
 
 int __wrap_pthread_mutex_lock(pthread_mutex_t *m)
 {
-    if (self < 0 || !is_static(m)) return __real_pthread_mutex_lock(m);
+    if (self < 0) return __real_pthread_mutex_lock(m);
+    if (!is_static(m)) {
+        /* an uncontended library lock (xmalloc, cbuf, hostlist): still a point where the thread
+         * may be preempted, so that code between two such calls is interleaved with other threads */
+        if (nthr > 3) { yield_op(OP_NOP); yield_end(); }
+        return __real_pthread_mutex_lock(m);
+    }
     __real_pthread_mutex_lock(&G);
     T[self].mid = mtx_id(m);
     __real_pthread_mutex_unlock(&G);
